@@ -158,7 +158,7 @@ fn lit_strategy() -> BoxedStrategy<Lit> {
     ];
     let base = proptest::sample::select(vec![10u32, 16, 16, 8, 2]);
     (
-        (bits, base, 0u8..12, proptest::collection::vec(any::<u64>(), 5), 0usize..4),
+        (bits, base, 0u8..16, proptest::collection::vec(any::<u64>(), 5), 0usize..4),
         (proptest::collection::vec(any::<u16>(), 0..4), any::<u64>(), any::<bool>(), any::<bool>(), 0u8..8, any::<u16>()),
         (proptest::collection::vec(0u8..8, 0..=4), 0u8..6),
     )
@@ -179,6 +179,13 @@ fn lit_strategy() -> BoxedStrategy<Lit> {
                 8 => &two * 16u32 - 1u32,                 // too large by one hex digit
                 9 => &two * (base as u32),                // too large by exactly one digit
                 10 => &r % pow2(64.min(bits.max(1))),      // small value in a wide type
+                // too large by more than one limb, with an all-zero limb directly above the
+                // width's own limbs and a low part that fits (limb-wise trimming must not drop
+                // the non-zero limbs above the gap)
+                12 => (&r % &two) + pow2(64 * ((bits + 63) / 64 + 1) + (raw[4] % 64) as usize),
+                13 => pow2(64 * ((bits + 63) / 64 + 1 + (raw[4] % 2) as usize)),
+                14 => (&r % &two) + (BigUint::from(raw[3] | 1) << (64 * ((bits + 63) / 64 + 2))),
+                15 => (&r % &two) + pow2(64 * ((bits + 63) / 64)) * BigUint::from(raw[3] >> (raw[4] % 64)), // non-zero limb directly above
                 _ => &r >> (raw[4] % 320) as usize,
             };
             if v.bits() as usize > max_bits {
@@ -422,7 +429,7 @@ fn main() {
     let t0 = Instant::now();
     let spec = PropSpec {
         id: "C19",
-        rule_text: "generated programs: literals = base {decimal, 0x, 0o, 0b} x digit strings up to 300 digits (leading zeros, mixed-case hex, '_' anywhere after the first digit, optionally one invalid letter, or the shape 0_<b|o|x><digits valid in that base> that only a decimal reading rejects) x optional '_' x suffix {U,B}<bits>, bits biased to {0,1,2,7,8,63,64,65,127,128,129,256,4096} and 0..=300, values from {0,1,2^bits-1,2^bits,2^bits+1,2^(bits-1), random below 2^bits, one bit too long, too large by exactly one digit, small values in wide types}; each literal at nesting depth 0..4 (parens, blocks, arrays, tuples, calls, closures, const items), inside one whole-program uint!{} or per-literal uint!() / uint!{} / uint![] / forwarded through macro_rules expr, literal and tt fragments. A reference literal model classifies VALID(value) / REJECT. Positive programs: run-time comparison of the constant with the model's limbs and with from_str_radix of the same digits at the exact suffix width and type (Uint / Bits). Negative programs: every REJECT literal must carry a compile error; a line without one is recompiled alone and is a violation iff it builds. Pass-through programs: token soups of non-matching literals (suffixed ints, hex ending in B<digits>, floats, strings, chars, byte strings, identifiers U256/B8) nested in groups, metamorphic oracle uint!{E} == E in value (Debug) and type. Non-trivial: literal wider than one limb, or value in {2^bits-1, 2^bits, 2^bits+1}, or containing '_' / leading zeros, or rejected by exactly one digit; distinct by literal text.",
+        rule_text: "generated programs: literals = base {decimal, 0x, 0o, 0b} x digit strings up to 300 digits (leading zeros, mixed-case hex, '_' anywhere after the first digit, optionally one invalid letter, or the shape 0_<b|o|x><digits valid in that base> that only a decimal reading rejects) x optional '_' x suffix {U,B}<bits>, bits biased to {0,1,2,7,8,63,64,65,127,128,129,256,4096} and 0..=300, values from {0,1,2^bits-1,2^bits,2^bits+1,2^(bits-1), random below 2^bits, one bit too long, too large by exactly one digit, too large by two or more limbs with a zero limb directly above the width and a low part that fits, small values in wide types}; each literal at nesting depth 0..4 (parens, blocks, arrays, tuples, calls, closures, const items), inside one whole-program uint!{} or per-literal uint!() / uint!{} / uint![] / forwarded through macro_rules expr, literal and tt fragments. A reference literal model classifies VALID(value) / REJECT. Positive programs: run-time comparison of the constant with the model's limbs and with from_str_radix of the same digits at the exact suffix width and type (Uint / Bits). Negative programs: every REJECT literal must carry a compile error; a line without one is recompiled alone and is a violation iff it builds. Pass-through programs: token soups of non-matching literals (suffixed ints, hex ending in B<digits>, floats, strings, chars, byte strings, identifiers U256/B8) nested in groups, metamorphic oracle uint!{E} == E in value (Debug) and type. Non-trivial: literal wider than one limb, or value in {2^bits-1, 2^bits, 2^bits+1}, or containing '_' / leading zeros, or rejected by exactly one digit; distinct by literal text.",
         assumptions: vec![
             "rustc accept/reject and JSON diagnostics are trusted; num-bigint for the literal model",
             "only token shapes that reach the macro are generated (no 0b2 / 0o8 / decimal digits followed by e or E, which the lexer itself rejects or reads as floats)",
